@@ -71,7 +71,7 @@ using namespace vh;
 BASE_CFLAGS = ['-std=c++17', '-fno-vectorize', '-fno-slp-vectorize', '-ffp-contract=off', '-fno-exceptions',
                '-mllvm', '-inline-threshold=100000', '-w']
 UBSAN_FLAGS = ['-fsanitize=undefined,float-cast-overflow,float-divide-by-zero,integer-divide-by-zero',
-               '-fno-sanitize=function,vptr,float-divide-by-zero,alignment', '-fsanitize-trap=all']
+               '-fno-sanitize=function,vptr,float-divide-by-zero,alignment,pointer-overflow', '-fsanitize-trap=all']
 
 class Fn:
     def __init__(s, name, ins, outs, body): s.name = name; s.ins = ins; s.outs = outs; s.body = body
@@ -370,6 +370,35 @@ def _cvc5_check(asserts, timeout_s, vars_, opts=('--solve-bv-as-int=sum',), logi
             v = m.group(2); model[m.group(1)] = int(v[2:], 2 if v[1] == 'b' else 16)
     return first, model, dt
 
+def _mentions_fp(t):
+    """hypothesis over the IEEE view of the inputs (meaningless once rounding is erased: reals are finite and not NaN)"""
+    seen = set(); st = [t]
+    while st:
+        x = st.pop()
+        if x.get_id() in seen: continue
+        seen.add(x.get_id())
+        if z3.is_fp(x) or z3.is_bv(x): return True
+        st.extend(x.children())
+    return False
+def _term_vars(t, memo):
+    k = t.get_id()
+    if k in memo: return memo[k]
+    if z3.is_const(t) and t.decl().kind() == z3.Z3_OP_UNINTERPRETED: r = frozenset([k])
+    else:
+        r = frozenset()
+        for c in t.children(): r = r | _term_vars(c, memo)
+    memo[k] = r; return r
+def _cone_of_influence(asserts):
+    """assertions connected (through shared uninterpreted constants) to the last assertion; order preserved"""
+    if len(asserts) < 2: return asserts
+    memo = {}; vs = [_term_vars(a, memo) for a in asserts]
+    keep = {len(asserts) - 1}; cur = set(vs[-1]); changed = True
+    while changed:
+        changed = False
+        for i, v in enumerate(vs):
+            if i not in keep and (v & cur): keep.add(i); cur |= v; changed = True
+    return [a for i, a in enumerate(asserts) if i in keep]
+
 class Rec(dict): pass
 
 class Session:
@@ -402,12 +431,18 @@ class Session:
             r, m, dt3, _ = _z3_check(asserts, timeout / 2)
             return r, m, dt + dt2 + dt3, 'z3+cvc5 --solve-bv-as-int=sum+z3'
         if solver == 'nra':          # real polynomial identities under equality hypotheses: nlsat with its variable reordering switched off decides in
-            # milliseconds what the default strategy needs 14 s (or forever) for; fall back to the default strategy for the rest of the budget
-            t1 = max(1.0, timeout / 2)
-            sv = z3.With('qfnra-nlsat', **{'nlsat.reorder': False}).solver(); sv.set('timeout', int(t1 * 1000)); sv.add(*asserts)
-            t = time.time(); r = str(sv.check()); dt = time.time() - t
-            if r != 'unknown': return r, (sv.model() if r == 'sat' else None), dt, 'z3 qfnra-nlsat(reorder=false)'
-            r, m, dt2, _ = _z3_check(asserts, max(1.0, timeout - dt)); return r, m, dt + dt2, 'z3 qfnra-nlsat(reorder=false)+z3'
+            # milliseconds what the default strategy needs 14 s (or forever) for, but is sensitive to the order in which variables first occur:
+            # short slices over (A) assertions that define engine-fresh variables (sqrt!k, sin!k ..) first, (B) the given order; then the default strategy.
+            # Assertions sharing no variable (transitively) with the last one (the negated goal) are dropped first - sound for 'unsat'.
+            core = _cone_of_influence(list(asserts))
+            tot = 0.0; used = []
+            fresh_first = sorted(core, key=lambda a_: 0 if '!' in a_.sexpr() else 1)
+            for sl in (2.0, min(10.0, timeout / 5.0)):
+                for tag, lst in (('A', fresh_first), ('B', core)):
+                    sv = z3.With('qfnra-nlsat', **{'nlsat.reorder': False}).solver(); sv.set('timeout', int(sl * 1000)); sv.add(*lst)
+                    t = time.time(); r = str(sv.check()); tot += time.time() - t; used.append(tag)
+                    if r != 'unknown': return r, (sv.model() if r == 'sat' else None), tot, 'z3 qfnra-nlsat(reorder=false;%s)' % ''.join(used)
+            r, m, dt2, _ = _z3_check(core, max(1.0, timeout - tot)); return r, m, tot + dt2, 'z3 qfnra-nlsat(reorder=false;ABAB)+z3'
         if solver == 'qfnra':
             r, m, dt, _ = _z3_check(asserts, timeout, tactic='qfnra-nlsat'); return r, m, dt, 'z3 qfnra-nlsat'
         raise ValueError(solver)
@@ -519,19 +554,21 @@ class Session:
 
     # -- differential check: the same wrapper in two builds (units / optimisation levels) on shared symbolic inputs
     def diff_fn(s, ua, ub, fname, pre=None, *, mode='fp', name=None, opt_a='-O1', opt_b='-O1', unwind=16, known=(), timeout=None, solver='z3',
-                bounds='', mandatory=True, eq=None, fname_b=None, label_a='A', label_b='B', outs_sel=None, native_b=None):
+                bounds='', mandatory=True, eq=None, fname_b=None, label_a='A', label_b='B', outs_sel=None, native_b=None, syntactic_only=False):
         """outputs of ua.fname and ub.fname(_b) must agree on every input satisfying pre.  eq(a, b, ctype) -> Bool overrides the default
         (integers: equal; floats: bit-identical or both NaN; real mode: equal)."""
         fname_b = fname_b or fname
         name = name or '%s~%s.%s' % (ua.name, ub.name, fname)
         fa = ua.fns[fname]; fb = ub.fns[fname_b]
+        erase = mode == 'erase'           # execute bit-exactly, then erase rounding at the term level (engine/erase.py)
+        if erase: mode = 'fp'
         ins = mkvars(fa, mode)
         try:
             ex = Exec(ua.module(opt_a), fmode='real' if mode == 'real' else 'fp', unwind=unwind)
             ra = sym_call(ua, fname, ins=ins, mode=mode, unwind=unwind, opt=opt_a, ex=ex)
             n_ob_a = len(ex.obligations)
             rb = sym_call(ub, fname_b, ins=ins, mode=mode, unwind=unwind, opt=opt_b, ex=ex)
-        except Unsupported as e:
+        except (Unsupported, z3.Z3Exception, AttributeError, TypeError, KeyError, AssertionError, IndexError) as e:
             s.rec(name=name, kind='encode', result='unsupported', status='not-encoded', note=str(e), mandatory=mandatory, functions=[fname])
             if mandatory: s.inconclusive.append('%s [not encoded: %s]' % (name, e))
             return None
@@ -576,13 +613,29 @@ class Session:
             if isinstance(a, RV): return a.r == b.r
             if isinstance(a, FV):
                 if a._bits is not None and b._bits is not None and a._bits.eq(b._bits): return z3.BoolVal(True)
+                if a.fp.eq(b.fp): return z3.BoolVal(True)
                 return z3.Or(a.bits == b.bits, z3.And(z3.fpIsNaN(a.fp), z3.fpIsNaN(b.fp)))
             if ct_kind(c) == 'b': return (a & 1) == (b & 1)
             return a == b
         eqf = eq or default_eq
+        E = None
+        if erase:
+            import erase as _er
+            E = _er.Eraser()
+        def erased_inputs(m):
+            vals = []
+            for (c, n), terms in zip(fa.ins, ins):
+                row = []
+                for t in terms:
+                    rv = E.vars.get(t.decl().name()) if ct_kind(c) == 'f' else None
+                    if rv is not None: row.append(float_to_bits(float(z3val_to_fraction(m.eval(rv, model_completion=True))), ct_bits(c)))
+                    else:
+                        v = m.eval(t, model_completion=True); row.append(v.as_long() if z3.is_bv_value(v) else 0)
+                vals.append(row)
+            return vals
         def mk_replay(oi, i):
             def replay(m):
-                vals = s._model_inputs(m, ra)
+                vals = erased_inputs(m) if erase else s._model_inputs(m, ra)
                 info = {'unit': ua.name, 'unit_b': ub.name, 'fn': fname, 'inputs': [[hex(v) if isinstance(v, int) else str(v) for v in r] for r in vals], 'obligation': name, 'property': s.pid, 'pin_name': name}
                 if mode == 'real':
                     vals = [[float_to_bits(float(v), ct_bits(c)) if ct_kind(c) == 'f' else int(v) for v in row] for (c, n), row in zip(fa.ins, vals)]
@@ -596,22 +649,38 @@ class Session:
                 if ct_kind(c) == 'f':
                     fx, fy = bits_to_float(x, ct_bits(c)), bits_to_float(y, ct_bits(c))
                     if fx != fx and fy != fy: return 'not-reproduced', info
-                    if mode == 'real':
+                    if mode == 'real' or erase:
                         tol = 2e-3 if ct_bits(c) == 32 else 1e-6
                         if fx == fx and fy == fy and abs(fx - fy) <= tol * max(1.0, abs(fx), abs(fy)): return 'not-reproduced', info
                 return 'reproduced', info
             return replay
+        n_skipped = 0
+        todo = []
         for oi, ((c, n), va, vb) in enumerate(zip(fa.outs, ra.outs, rb.outs)):
             if outs_sel is not None and oi not in outs_sel: continue
             for i, (a, b) in enumerate(zip(va, vb)):
-                g = eqf(a, b, c)
                 oname = '%s.o%d_%d' % (name, oi, i) if len(fa.outs) > 1 else '%s.%d' % (name, i)
+                g = eqf(a, b, c)
+                if erase and isinstance(a, FV) and not z3.is_true(z3.simplify(g)):
+                    try: g = E.fp(a.fp) == E.fp(b.fp)
+                    except (Unsupported, z3.Z3Exception, AttributeError) as e:
+                        s.rec(name=oname, kind='encode', result='unsupported', status='not-encoded', note=str(e)[:200], mandatory=mandatory, functions=fnlist)
+                        if mandatory: s.inconclusive.append('%s [not encoded: %s]' % (oname, str(e)[:120]))
+                        continue
+                todo.append((oi, i, c, oname, g))
+        if erase:
+            hyps = [h for h in hyps if not _mentions_fp(h)] + list(E.axioms) + ([z3.Not(z3.Or(*E.domain))] if E.domain else [])
+            s.last_approx_ufs = set(E.approx_ufs)
+        for oi, i, c, oname, g in todo:
+            if True:
                 gs = z3.simplify(g)
                 if z3.is_true(gs):
                     s.rec(name=oname, kind='diff', functions=fnlist, bounds=binfo, solver='identical terms (z3 simplifier)', result='unsat', time_s=0.0, status='discharged', mandatory=mandatory)
                     continue
+                if syntactic_only: n_skipped += 1; continue
                 s._prove_known(oname, g, hyps, ra, known, timeout=timeout, solver=solver, kind='diff', functions=fnlist, bounds=binfo, spec_fn=None, pre_fn=pre,
                                unit=ua, fname=fname, mode=mode, vars_=allvars, mandatory=mandatory, replayer=mk_replay(oi, i))
+        if syntactic_only: return n_skipped
         return ra, rb
 
     def _model_inputs(s, m, res):
@@ -767,10 +836,11 @@ def ub_replay(unit, fname, vals, info, kind):
 
 class RGoal:
     """a goal in real mode that can also be evaluated numerically with a tolerance: kind in eq/le/lt/ge/gt"""
-    def __init__(s, kind, l, r): s.kind = kind; s.l = l; s.r = r
+    def __init__(s, kind, l, r, guard=None): s.kind = kind; s.l = l; s.r = r; s.guard = guard    # guard: optional Bool; the goal is guard -> atom
     def term(s):
         l, r = s.l, s.r
-        return {'eq': l == r, 'le': l <= r, 'lt': l < r, 'ge': l >= r, 'gt': l > r}[s.kind]
+        a = {'eq': l == r, 'le': l <= r, 'lt': l < r, 'ge': l >= r, 'gt': l > r}[s.kind]
+        return a if s.guard is None else z3.Implies(s.guard, a)
 def REq(l, r): return RGoal('eq', l, r)
 
 def real_replay(unit, fname, vals, spec_fn, pre_fn, oname, pid):
@@ -805,6 +875,7 @@ def real_replay(unit, fname, vals, spec_fn, pre_fn, oname, pid):
         return float(z3val_to_fraction(t))
     try:
         if isinstance(g, RGoal):
+            if getattr(g, 'guard', None) is not None and z3.is_false(z3.simplify(g.guard)): info['note'] = 'guard false on the replayed values'; return 'not-reproduced', info
             l = num(g.l); r = num(g.r); sc = max(1.0, abs(l), abs(r)); info['lhs'] = l; info['rhs'] = r
             bad = {'eq': abs(l - r) > tol * sc, 'le': l - r > tol * sc, 'lt': l - r >= -0.0 and l - r > tol * sc, 'ge': r - l > tol * sc, 'gt': r - l > tol * sc}[g.kind]
             return ('reproduced' if bad else 'not-reproduced'), info
